@@ -22,13 +22,17 @@ var Alphabets = map[string][]string{
 	"range": {"a", "b", ":", "[", "]", "{", "}", "TO", "*", "5"},
 	"unary": {"a", ":", "NOT", "+", "-", "~", "^", "2", "(", ")"},
 	"bool":  {"a", "b", ":", "AND", "OR", "NOT", "(", ")"},
-	"cmp":   {"a", ":", ">", "<", "=", "5", "-", "(", ")"},
+	"cmp":   {"a", ":", ">", "<", "=", "5", "-", "(", ")", "010"},
+	"like":  {"a", ":", "w*", "a?", "/r/", "(", ")", "OR"},
+	"juxt":  {"a", "b", ":", "(", ")", "NOT", "OR", "-5"},
+	"nf":    {"a", ":", "(", ")", "5", "NOT"},
 }
 
 // ByteAlphabets: representatives of every lexer character class / every way to cut a rune.
 var ByteAlphabets = map[string][]string{
 	"lex":  {"a", "5", " ", "\t", "\"", "'", "/", "\\", "-", ":", "(", "*", ".", "!", "é", "\xff", "٣"},
 	"utf8": {"a", "\x00", "\x80", "\xc3", "\xa9", "\xe4", "\xb8", "\xad", "\xf0"},
+	"kw":   {"a", "n", "d", "o", "r", "t", "A", "N", "D", " ", ":"},
 }
 
 // SeqUnits splits "all sequences of length <= n over an alphabet of size k" into units: one unit
